@@ -243,7 +243,7 @@ def run_for(prop, tier, known_names=frozenset()):
                 continue
             if r["cover_unsat"]:
                 kr["undecided"].append(f"kani:{h['name']}: vacuity: {r['cover_unsat']}")
-            kr["harnesses"].append({"name": h["name"], "kind": h["kind"], "status": r["status"], "checks": r["checks"], "time_s": r["time_s"], "bound": h.get("bound"), "obligation": h.get("obligation")})
+            kr["harnesses"].append({"name": h["name"], "module": h["module"], "kind": h["kind"], "status": r["status"], "checks": r["checks"], "time_s": r["time_s"], "bound": h.get("bound"), "obligation": h.get("obligation")})
             if r["status"] == "FAILED":
                 name = f"kani/{h['module']}/{h.get('obligation', h['name'])}"
                 # no counterexample search for registered known findings (they have native demonstrations already)
